@@ -461,6 +461,10 @@ REAL = [
      "ops": [{"op": "req", "sleep": 4000, "n": 1}, {"op": "wait", "ms": 700}, {"op": "req", "sleep": 450, "n": 1},
              {"op": "join"}, {"op": "settle", "ms": 8000}, {"op": "req", "sleep": 10, "n": 2}, {"op": "join"}],
      "ok_tokens": ["t2", "t3", "t4"], "lost_tokens": ["t1"]},
+    {"name": "clean-exit-replaced", "init": 2, "max": 3, "timeout": 5,
+     "ops": [{"op": "hangup"}, {"op": "wait", "ms": 600}, {"op": "hangup"}, {"op": "wait", "ms": 600}, {"op": "hangup"}, {"op": "wait", "ms": 600},
+             {"op": "settle", "ms": 8000}, {"op": "req", "sleep": 10, "n": 2}, {"op": "join"}],
+     "all_ok": True},
     {"name": "crash-replaced", "init": 2, "max": 3, "timeout": 5,
      "ops": [{"op": "kill"}, {"op": "wait", "ms": 300}, {"op": "settle", "ms": 8000}, {"op": "req", "sleep": 10, "n": 2}, {"op": "join"}],
      "all_ok": True},
